@@ -1018,10 +1018,16 @@ class Executor:
         """scalar arithmetic with python's int/float distinction; floats are exact reals (A1)"""
         a = py_number(a)
         b = py_number(b)
-        if isinstance(a, self.intr.NanOr):
-            a = a.value       # arithmetic on a possibly-NaN library result: only on paths where it is not NaN (A1)
-        if isinstance(b, self.intr.NanOr):
-            b = b.value
+        if isinstance(a, self.intr.NanOr) or isinstance(b, self.intr.NanOr):
+            # arithmetic on a possibly-NaN library result: NaN propagates through + - * / (IEEE 754); the flag is kept
+            N = self.intr.NanOr
+            flags = [x.isnan for x in (a, b) if isinstance(x, N)]
+            av = a.value if isinstance(a, N) else a
+            bv = b.value if isinstance(b, N) else b
+            if sym in ("+", "-", "*", "/"):
+                flag = flags[0] if len(flags) == 1 else zor(as_bool_term(flags[0]), as_bool_term(flags[1]))
+                return N(self.arith(sym, av, bv, node), flag)
+            a, b = av, bv     # other operators: only on paths where it is not NaN (A1)
         if isinstance(a, enum.IntEnum):
             a = int(a)
         if isinstance(b, enum.IntEnum):
